@@ -62,6 +62,8 @@ pub struct Gen<'a> {
     budget: usize,
     /// names bound to finite iterators (an ordinary function of type ()->(bool, T) is not one)
     iterators: Vec<String>,
+    /// statements that must follow the one just generated (top level only)
+    pending: Vec<Stmt>,
 }
 
 fn is_counter(name: &str) -> bool {
@@ -77,7 +79,7 @@ fn scalar_types() -> [Ty; 4] {
 
 impl<'a> Gen<'a> {
     pub fn new(tape: &'a mut Tape, p: Profile) -> Self {
-        Self { tape, p, scopes: vec![vec![]], tick_types: vec![], next_tick: 1, fresh: 0, fn_ret: None, in_loop: false, labels: vec![], budget: 400, iterators: vec![] }
+        Self { tape, p, scopes: vec![vec![]], tick_types: vec![], next_tick: 1, fresh: 0, fn_ret: None, in_loop: false, labels: vec![], budget: 400, iterators: vec![], pending: vec![] }
     }
 
     fn label(&mut self, l: &'static str) {
@@ -390,7 +392,14 @@ impl<'a> Gen<'a> {
                     Expr::TupleAt(Box::new(tup), 1)
                 } else {
                     let other = self.gen_scalar_ty();
-                    let s = Expr::Struct(vec![("k".into(), self.expr(&other, depth - 1)), ("n".into(), self.expr(&Ty::Int, depth - 1))]);
+                    // field names deliberately not in alphabetical order: initialisers run in source order
+                    let third = self.gen_scalar_ty();
+                    let s = Expr::Struct(vec![
+                        ("zk".into(), self.expr(&other, depth - 1)),
+                        ("n".into(), self.expr(&Ty::Int, depth - 1)),
+                        ("am".into(), self.expr(&third, depth - 1)),
+                    ]);
+                    self.label("struct literal");
                     Expr::Field(Box::new(s), "n".into())
                 }
             }
@@ -680,6 +689,13 @@ impl<'a> Gen<'a> {
             }
             4 => {
                 if self.tape.chance(1, 3) {
+                    if self.scopes.len() == 1 && self.fn_ret.is_none() && self.tape.chance(1, 3) {
+                        // several top-level statements: the first is returned, the rest are queued
+                        let mut stmts = self.recursive_iterator(name);
+                        let first = stmts.remove(0);
+                        self.pending.extend(stmts);
+                        return first;
+                    }
                     return self.user_iterator(name, depth);
                 }
                 // a manual pull from a visible iterator: only the flag is specified once it is exhausted
@@ -719,6 +735,60 @@ impl<'a> Gen<'a> {
     /// `name := (() -> (bool, int) { val := *i; if val < n { i += 1; return (true, f(val)); } return (false, filler); })`
     /// over a fresh counter cell: a user-written stateful iterator whose body declares locals
     /// (with names from the shared pool) and whose exhausted filler is an explicit value
+    /// `{ k := mut 0; name := () -> (bool, int) { v := *k; k += 1; if v >= n { return (false, f); }; if v % 2 == 0 { return name(); }; return (true, v); }; name }`
+    /// a named iterator that skips elements by calling itself by name; the caller may save it under
+    /// another name and re-declare the original name afterwards
+    fn recursive_iterator(&mut self, name: String) -> Vec<Stmt> {
+        self.label("iterator calling itself by name");
+        let cell = self.fresh_name("k");
+        let own = ["f", "g"][self.tape.below(2)].to_string();
+        let local = NAMES[self.tape.below(4)].to_string();
+        let n = self.tape.range(1, 5);
+        let filler = self.tape.range(-9, 9);
+        let v = || Expr::Var(local.clone());
+        let body = vec![
+            Stmt::Let(local.clone(), Box::new(Stmt::Expr(Expr::Deref(Box::new(Expr::Var(cell.clone())))))),
+            Stmt::Expr(Expr::Assign("+=", Box::new(Expr::Var(cell.clone())), Box::new(Expr::Int(1)))),
+            Stmt::If(
+                Expr::Bin(">=", Box::new(v()), Box::new(Expr::Int(n))),
+                Box::new(Stmt::Block(vec![Stmt::Return(Some(Box::new(Stmt::Expr(Expr::Tuple(vec![Expr::Bool(false), Expr::Int(filler)])))))])),
+                None,
+            ),
+            Stmt::If(
+                Expr::Bin("==", Box::new(Expr::Bin("%", Box::new(v()), Box::new(Expr::Int(2)))), Box::new(Expr::Int(0))),
+                Box::new(Stmt::Block(vec![Stmt::Return(Some(Box::new(Stmt::Expr(Expr::Call(Box::new(Expr::Var(own.clone())), vec![])))))])),
+                None,
+            ),
+            Stmt::Return(Some(Box::new(Stmt::Expr(Expr::Tuple(vec![Expr::Bool(true), v()]))))),
+        ];
+        let it_ty = Ty::iter_of(Ty::Int);
+        // k := mut 0; own := () -> (bool, int) {..}; name := own; own := <another iterator>
+        let mut out = vec![
+            Stmt::Let(cell.clone(), Box::new(Stmt::Expr(Expr::MutNew(Ty::Int, Box::new(Expr::Int(0)))))),
+            Stmt::FnDecl(own.clone(), vec![], Ty::Tup(vec![Ty::Bool, Ty::Int]), body),
+        ];
+        self.declare(&cell, Ty::cell(Ty::Int));
+        self.declare(&own, it_ty.clone());
+        if name != own {
+            out.push(Stmt::Let(name.clone(), Box::new(Stmt::Expr(Expr::Var(own.clone())))));
+            self.declare(&name, it_ty.clone());
+            self.iterators.push(name.clone());
+            if self.tape.bool() {
+                // the original name now denotes something else; the saved iterator must still call itself
+                let other = Expr::Iter(Box::new(Expr::Array(vec![Expr::Int(100), Expr::Int(200)])));
+                out.push(Stmt::Let(own.clone(), Box::new(Stmt::Expr(other))));
+                self.declare(&own, it_ty);
+                self.iterators.push(own);
+                self.label("iterator's own name re-declared after it was saved");
+            } else {
+                self.iterators.push(own);
+            }
+        } else {
+            self.iterators.push(own);
+        }
+        out
+    }
+
     fn user_iterator(&mut self, name: String, depth: usize) -> Stmt {
         self.label("user-written iterator");
         let cell = self.fresh_name("k");
@@ -1111,6 +1181,7 @@ impl<'a> Gen<'a> {
         for _ in 0..n {
             if let Some(s) = self.stmt(self.p.depth) {
                 body.push(s);
+                body.append(&mut self.pending);
             }
         }
         // observe every first-order / cell name visible at the end
